@@ -41,7 +41,7 @@ fn examples() -> Vec<(String, Vec<u8>)> {
 /// size of the enumerated truncation space: every cut point of every example, with and without
 /// a newline re-appended
 pub fn truncation_space() -> u64 {
-    SCALING_FAMILIES.len() as u64 + parser_enum_cases() + examples().iter().map(|(_, b)| (b.len() as u64 + 1) * 2).sum::<u64>()
+    SCALING_FAMILIES.len() as u64 + parser_enum_cases() + extreme_operand_cases() + examples().iter().map(|(_, b)| (b.len() as u64 + 1) * 2).sum::<u64>()
 }
 
 /// size of the enumerated single-byte replacement space (thorough tier)
@@ -346,6 +346,26 @@ fn enumerated_parser_strings() -> Vec<String> {
     v
 }
 
+const XO_OPS: [&str; 14] = [
+    "div bl", "idiv bl", "div bx", "idiv bx", "mul bl", "imul bl", "mul bx", "imul bx", "aam", "aad", "div byte [5]", "idiv byte [5]", "div word [5]", "idiv word [5]",
+];
+const XO_DX: [u16; 5] = [0, 1, 0x7FFF, 0x8000, 0xFFFF];
+const XO_V: [u16; 8] = [0, 1, 0x7F, 0x80, 0xFF, 0x7FFF, 0x8000, 0xFFFF];
+
+pub fn extreme_operand_cases() -> u64 {
+    (XO_OPS.len() * XO_DX.len() * XO_V.len() * XO_V.len()) as u64
+}
+
+fn extreme_operand_program(k: usize) -> String {
+    let op = XO_OPS[k % XO_OPS.len()];
+    let k = k / XO_OPS.len();
+    let dx = XO_DX[k % XO_DX.len()];
+    let k = k / XO_DX.len();
+    let ax = XO_V[k % XO_V.len()];
+    let bx = XO_V[(k / XO_V.len()) % XO_V.len()];
+    format!("start:\nmov dx, {}\nmov ax, {}\nmov bx, {}\nmov word [5], bx\n{}\nprint reg\nprint flags\n", dx, ax, bx, op)
+}
+
 const PARSER_ENUM_CHUNK: usize = 40;
 
 pub fn parser_enum_cases() -> u64 {
@@ -374,6 +394,17 @@ pub fn make_case(seed: u64, run: u64, thorough: bool, _stats: &mut Stats) -> Opt
         return Some(c);
     }
     let run = run - npe;
+    // ---- enumerated part 0c: the multiply / divide / adjust family on extreme operands, as tiny
+    // source files (a file is "processed" until its program has run: an operand combination that
+    // aborts the emulator is an abort on that file)
+    let nxo = extreme_operand_cases();
+    if run < nxo {
+        let src = extreme_operand_program(run as usize);
+        let mut c = storage_case(seed, run_orig, src.into_bytes(), vec!["extreme_operands".to_owned()], false);
+        c.config = "enumerated_extreme_operands".to_owned();
+        return Some(c);
+    }
+    let run = run - nxo;
     let ex = examples();
     // ---- enumerated part 1: truncation points (identical for all seeds)
     let mut i = run;
